@@ -20,6 +20,7 @@ import (
 	"sort"
 	"strings"
 	"sync/atomic"
+	"time"
 
 	"verif/common"
 
@@ -392,6 +393,7 @@ func pow(b, e int) int {
 }
 
 func knapsackSpace(r *common.Run, maxItems int) {
+	t0 := time.Now() // reported only, never compared
 	var lists, cases int64
 	for l := 0; l <= maxItems; l++ {
 		total := pow(len(kinds), l)
@@ -435,7 +437,7 @@ func knapsackSpace(r *common.Run, maxItems int) {
 		})
 	}
 	r.Section(map[string]any{"family": "Knapsack", "space": fmt.Sprintf("every ordered item list of <= %d items over weight {0,1,2,3} x value {1,2,3} (= every multiset in every order), every limit 0..sum(weights)+1, tie-breaker none / prefer-fewer-items / always-replace / never-replace", maxItems),
-		"item_lists": lists, "cases": cases})
+		"item_lists": lists, "cases": cases, "wall_s": time.Since(t0).Seconds()})
 	r.SampleL("Knapsack", Case{Kind: kKnapsack, Items: []Item{{0, 2, 3}, {1, 1, 2}, {2, 1, 2}, {3, 0, 1}}, Limit: 2, Breaker: tbFewer}.describe())
 }
 
@@ -530,6 +532,7 @@ func judgeDp(c Case, out Outcome, tab *subsetTable, attain []bool, s *shard) {
 }
 
 func dpSpace(r *common.Run, maxItems int) {
+	t0 := time.Now() // reported only, never compared
 	var lists, cases int64
 	for l := 0; l <= maxItems; l++ {
 		total := pow(3, l)
@@ -577,7 +580,7 @@ func dpSpace(r *common.Run, maxItems int) {
 		})
 	}
 	r.Section(map[string]any{"family": "FindDpSolvers+Best+BestAllowMinOverflow", "space": fmt.Sprintf("every ordered list of <= %d item values over {1,2,3} (FindDpSolvers never looks at weights), every maxValue 0..sum+1, allowOverOnce false/true, tie-breaker none / prefer-fewer-items / always-replace / never-replace", maxItems),
-		"item_lists": lists, "cases": cases})
+		"item_lists": lists, "cases": cases, "wall_s": time.Since(t0).Seconds()})
 	r.SampleL("FindDpSolvers", Case{Kind: kDp, Items: []Item{{0, 0, 2}, {1, 0, 2}, {2, 0, 3}}, Limit: 6, AllowOver: true, Breaker: tbAlways}.describe())
 }
 
@@ -717,19 +720,27 @@ func permsFor(n int, all bool) [][]int {
 	for i := range id {
 		id[i] = i
 	}
+	seen := map[string]bool{}
 	for _, base := range [][]int{id, reverseOf(id)} {
 		for rot := 0; rot < n; rot++ {
 			p := make([]int, n)
 			for i := range p {
 				p[i] = base[(i+rot)%n]
 			}
-			out = append(out, p)
+			if k := fmt.Sprint(p); !seen[k] {
+				seen[k] = true
+				out = append(out, p)
+			}
 		}
+	}
+	if len(out) == 0 {
+		out = append(out, []int{}) // n = 0: the one (empty) permutation
 	}
 	return out
 }
 
 func graphSpace(r *common.Run, maxN int, allPermsUpTo int) {
+	t0 := time.Now() // reported only, never compared
 	var graphs, casesGMC, casesBK int64
 	for n := 0; n <= maxN; n++ {
 		np := n * (n - 1) / 2
@@ -738,7 +749,9 @@ func graphSpace(r *common.Run, maxN int, allPermsUpTo int) {
 		if chunks > 256 {
 			chunks = 256
 		}
-		perms := permsFor(n, n <= allPermsUpTo)
+		// X=P[:0] is the call GetMaximalCliques itself makes: all vertex orders up to allPermsUpTo;
+		// the plain call (R=nil, X=nil): all orders up to 5 vertices, the rotation family above.
+		permsAlias, permsPlain := permsFor(n, n <= allPermsUpTo), permsFor(n, n <= 5)
 		parallel(r, chunks, func(ci int, s *shard) {
 			lo, hi := total*ci/chunks, total*(ci+1)/chunks
 			var ng, n1, n2 int64
@@ -763,8 +776,12 @@ func graphSpace(r *common.Run, maxN int, allPermsUpTo int) {
 				c.Kind = kCliques
 				run(c)
 				n1++
-				for _, p := range perms {
-					for _, alias := range []bool{false, true} {
+				for _, alias := range []bool{false, true} {
+					perms := permsPlain
+					if alias {
+						perms = permsAlias
+					}
+					for _, p := range perms {
 						c := base
 						c.Kind, c.Perm, c.AliasX = kBK, p, alias
 						run(c)
@@ -777,12 +794,16 @@ func graphSpace(r *common.Run, maxN int, allPermsUpTo int) {
 			atomic.AddInt64(&casesBK, n2)
 		})
 	}
-	permRule := fmt.Sprintf("every permutation of P for <= %d vertices", allPermsUpTo)
+	rot := "; above that: identity, reverse and all their rotations"
+	ruleAlias, rulePlain := fmt.Sprintf("every permutation of P for <= %d vertices", allPermsUpTo), "every permutation of P for <= 5 vertices"
 	if allPermsUpTo < maxN {
-		permRule += ", identity / reverse and all their rotations above"
+		ruleAlias += rot
 	}
-	r.Section(map[string]any{"family": "GetMaximalCliques+BronKerbosch", "space": fmt.Sprintf("every simple undirected graph on 0..%d labelled vertices (isolated vertices added with AddNode); GetMaximalCliques once; BronKerbosch with %s, each with (R=nil, X=nil) and with (R cap n, X=P[:0]) as GetMaximalCliques itself calls it", maxN, permRule),
-		"graphs": graphs, "cases_GetMaximalCliques": casesGMC, "cases_BronKerbosch": casesBK})
+	if 5 < maxN {
+		rulePlain += rot
+	}
+	r.Section(map[string]any{"family": "GetMaximalCliques+BronKerbosch", "space": fmt.Sprintf("every simple undirected graph on 0..%d labelled vertices (isolated vertices added with AddNode); GetMaximalCliques once; BronKerbosch(R cap n, P, X=P[:0]) exactly as GetMaximalCliques calls it with %s; BronKerbosch(R=nil, P, X=nil) with %s", maxN, ruleAlias, rulePlain),
+		"graphs": graphs, "cases_GetMaximalCliques": casesGMC, "cases_BronKerbosch": casesBK, "wall_s": time.Since(t0).Seconds()})
 	r.SampleL("cliques", Case{Kind: kBK, N: 4, Edges: 0b001011, Perm: []int{2, 0, 3, 1}, AliasX: true}.describe())
 }
 
